@@ -276,6 +276,10 @@ def check(run):
                          {'family': 'B2', 'n_entries': len(ls), 'errs': e})
             elif len(im['dest']) >= len(ls):
                 run.count('B2:boss-sent-everything-before-noticing')
+        # ---- U: arbitrary command sequences against the real doer thread, command by command, vs the doer model (every doer-side failure
+        #         becomes an Error response; a success has its effect) ----
+        import doerops_lib
+        doerops_lib.family(run, binary, jbin, n_seq=400 if quick else 20000)
         # ---- C: natural failures ----
         for si, sc in enumerate([gen_c08(rng, big=0.6) for _ in range(20 if quick else 500)]):
             if not any(n['k'] == 'file' and len(n['data']) > 600 for n in sc.src.values()):
